@@ -1,7 +1,408 @@
-//! C16 — not built yet.
-use lv_common::Ctx;
+//! C16 — Decoding network input never panics.
+//!
+//! In-process mutation fuzzing whose every decision is a proptest value: seeds are honest encodings
+//! produced from generated squares/headers; mutators are byte-level and protobuf-aware operators
+//! (`lv_gen::mutate`) plus the structured adversarial set named by the property (huge sibling lists,
+//! extreme indices, empty halves, mismatched lengths, zero-length messages). Oracle: the call returns.
 
-pub fn run(_ctx: &mut Ctx) {
-    eprintln!("C16: check not built yet");
-    std::process::exit(2);
+use bytes::BytesMut;
+use celestia_proto::proof::pb::Proof as RawProof;
+use celestia_proto::share::eds::byzantine::pb::{BadEncoding as RawBefp, Share as RawBefpShare};
+use celestia_proto::shwap::{Row as RawRow, RowNamespaceData as RawRnd, Sample as RawSample, Share as RawShare};
+use celestia_types::consts::appconsts::AppVersion;
+use celestia_types::fraud_proof::{BadEncodingFraudProof, FraudProof};
+use celestia_types::nmt::Namespace;
+use celestia_types::row::{Row, RowId};
+use celestia_types::row_namespace_data::{RowNamespaceData, RowNamespaceDataId};
+use celestia_types::sample::{Sample, SampleId};
+use celestia_types::{AxisType, ExtendedHeader};
+use lv_common::prelude::*;
+use lv_common::{no_panic, panic_sig};
+use lv_gen::chain::{build_header, build_set};
+use lv_gen::mutate::{ByteMut, apply_all, byte_mut_strategy};
+use lv_gen::square::{Square, SquareSpec, build_square, structured_square_strategy, user_ns};
+use prost::Message;
+use tendermint_proto::Protobuf;
+
+pub const HEIGHT: u64 = 7;
+
+#[derive(Clone, Copy, Debug, Serialize, Deserialize, PartialEq, Eq)]
+pub enum Target {
+    Header,
+    Sample,
+    Row,
+    RowNamespaceData,
+    Befp,
+    Ids,
+    HeaderExRequest,
+    HeaderExResponse,
+    ShrexRow,
+    ShrexSample,
+    ShrexEds,
+    ShrexNamespaceData,
+    EdsNotification,
+    Multihasher,
+}
+
+pub const TYPES_TARGETS: &[Target] = &[Target::Header, Target::Sample, Target::Row, Target::RowNamespaceData, Target::Befp, Target::Ids];
+
+#[derive(Clone, Debug, Serialize, Deserialize)]
+pub enum Structured {
+    /// keep the mutated bytes as they are
+    None,
+    /// zero-length message
+    Empty,
+    /// proof with `n` copies of its first node (or a fabricated node)
+    ProofNodes { n: u16 },
+    /// proof range set to boundary values
+    ProofRange { start: u8, end: u8 },
+    /// row: empty half on the given side
+    RowEmptyHalf { right: bool },
+    /// row: `n` shares in the half (any count, incl. non powers of two), side
+    RowHalfLen { n: u8, right: bool },
+    /// row/rnd/sample: share data of `len` bytes
+    ShareLen { len: u16 },
+    /// id index beyond the square
+    IndexBeyond { by: u16 },
+    /// befp: claimed index / shares length
+    BefpShape { index: u32, shares: u16 },
+    /// absence proof without / with garbage leaf hash
+    LeafHash { len: u8 },
+}
+
+#[derive(Clone, Debug, Serialize, Deserialize)]
+pub struct Round {
+    pub target: u8,
+    pub seed_sel: u16,
+    pub a: u16,
+    pub b: u16,
+    pub structured: Structured,
+    pub muts: Vec<ByteMut>,
+}
+
+#[derive(Clone, Debug, Serialize, Deserialize)]
+pub struct Case {
+    pub square: SquareSpec,
+    pub hseed: u64,
+    pub rounds: Vec<Round>,
+}
+
+const BOUNDS: [i64; 12] = [0, 1, 2, 63, 64, 65, 65535, 65536, i32::MAX as i64, u32::MAX as i64, i64::MAX, -1];
+
+pub struct Fixture {
+    pub sq: Square,
+    pub header: ExtendedHeader,
+    pub namespaces: Vec<Namespace>,
+}
+
+pub fn fixture(square: &SquareSpec, hseed: u64) -> Fixture {
+    let sq = build_square(square, AppVersion::V3);
+    let (set, keys) = build_set(hseed, &[(0, 10), (1, 7)]);
+    let time = tendermint::Time::from_unix_timestamp(1_700_000_000, 0).unwrap();
+    let header = build_header(hseed, "private", HEIGHT, 3, time, None, &set, &keys, set.hash(), &[], sq.dah.clone(), 0);
+    let mut namespaces = sq.namespaces.clone();
+    namespaces.push(user_ns(60001)); // absent
+    namespaces.push(Namespace::PAY_FOR_BLOB);
+    namespaces.push(Namespace::TAIL_PADDING);
+    namespaces.push(Namespace::PARITY_SHARE);
+    Fixture { sq, header, namespaces }
+}
+
+fn structured_strategy() -> impl Strategy<Value = Structured> {
+    prop_oneof![
+        10 => Just(Structured::None),
+        1 => Just(Structured::Empty),
+        3 => prop_oneof![Just(0u16), Just(1), Just(2), Just(31), Just(32), Just(33), Just(63), Just(64), Just(65), Just(1000)].prop_map(|n| Structured::ProofNodes { n }),
+        3 => (0u8..12, 0u8..12).prop_map(|(start, end)| Structured::ProofRange { start, end }),
+        1 => any::<bool>().prop_map(|right| Structured::RowEmptyHalf { right }),
+        2 => (0u8..40, any::<bool>()).prop_map(|(n, right)| Structured::RowHalfLen { n, right }),
+        2 => prop_oneof![Just(0u16), Just(1), Just(28), Just(29), Just(30), Just(63), Just(64), Just(511), Just(513), Just(1024)].prop_map(|len| Structured::ShareLen { len }),
+        2 => prop_oneof![Just(0u16), Just(1), Just(1000), Just(65000)].prop_map(|by| Structured::IndexBeyond { by }),
+        2 => (prop_oneof![Just(0u32), Just(1), Just(7), Just(8), Just(65535), Just(65536), Just(u32::MAX)], prop_oneof![Just(0u16), Just(1), Just(3), Just(4), Just(8), Just(9), Just(300)])
+            .prop_map(|(index, shares)| Structured::BefpShape { index, shares }),
+        1 => prop_oneof![Just(0u8), Just(1), Just(89), Just(90), Just(91)].prop_map(|len| Structured::LeafHash { len }),
+    ]
+}
+
+fn round_strategy() -> impl Strategy<Value = Round> {
+    (0u8..=255, any::<u16>(), any::<u16>(), any::<u16>(), structured_strategy(), prop::collection::vec(byte_mut_strategy(), 0..4))
+        .prop_map(|(target, seed_sel, a, b, structured, muts)| Round { target, seed_sel, a, b, structured, muts })
+}
+
+fn tweak_proof(p: &mut RawProof, s: &Structured) {
+    match s {
+        Structured::ProofNodes { n } => {
+            let node = p.nodes.first().cloned().unwrap_or_else(|| vec![0xab; 90]);
+            p.nodes = vec![node; *n as usize];
+        }
+        Structured::ProofRange { start, end } => {
+            p.start = BOUNDS[*start as usize % BOUNDS.len()];
+            p.end = BOUNDS[*end as usize % BOUNDS.len()];
+        }
+        Structured::LeafHash { len } => {
+            p.leaf_hash = vec![0x11; *len as usize];
+        }
+        _ => {}
+    }
+}
+
+fn tweak_shares(shares: &mut Vec<RawShare>, s: &Structured) {
+    if let Structured::ShareLen { len } = s {
+        if let Some(first) = shares.first_mut() {
+            first.data.resize(*len as usize, 0x5a);
+        }
+    }
+}
+
+/// Honest seed encoding for a target + the (mutable) context the decoder needs.
+pub enum Prepared {
+    Header(Vec<u8>),
+    Sample(SampleId, Vec<u8>),
+    Row(RowId, Vec<u8>),
+    Rnd(RowNamespaceDataId, Vec<u8>),
+    Befp(Vec<u8>),
+    Ids(Vec<u8>),
+}
+
+pub fn prepare(fx: &Fixture, t: Target, r: &Round) -> Prepared {
+    let w = fx.sq.eds.square_width();
+    let row = pick(r.a, w as usize) as u16;
+    let col = pick(r.b, w as usize) as u16;
+    let beyond = |idx: u16| match r.structured {
+        Structured::IndexBeyond { by } => w.saturating_add(by).max(idx),
+        _ => idx,
+    };
+    match t {
+        Target::Header => Prepared::Header(fx.header.clone().encode_vec()),
+        Target::Sample | Target::ShrexSample | Target::Multihasher => {
+            let axis = if r.seed_sel & 1 == 0 { AxisType::Row } else { AxisType::Col };
+            let mut raw = RawSample::from(Sample::new(row, col, axis, &fx.sq.eds).unwrap());
+            if let Some(p) = raw.proof.as_mut() {
+                tweak_proof(p, &r.structured);
+            }
+            if let (Structured::ShareLen { len }, Some(sh)) = (&r.structured, raw.share.as_mut()) {
+                sh.data.resize(*len as usize, 0x5a);
+            }
+            let id = SampleId::new(beyond(row), if r.seed_sel & 2 == 0 { col } else { beyond(col) }, HEIGHT).unwrap();
+            Prepared::Sample(id, raw.encode_to_vec())
+        }
+        Target::Row | Target::ShrexRow => {
+            let mut raw = RawRow::from(Row::new(row, &fx.sq.eds).unwrap());
+            match &r.structured {
+                Structured::RowEmptyHalf { right } => {
+                    raw.shares_half.clear();
+                    raw.half_side = *right as i32;
+                }
+                Structured::RowHalfLen { n, right } => {
+                    let proto = raw.shares_half.first().cloned().unwrap_or(RawShare { data: vec![0; 512] });
+                    raw.shares_half.resize(*n as usize, proto);
+                    raw.half_side = *right as i32;
+                }
+                s => tweak_shares(&mut raw.shares_half, s),
+            }
+            if r.seed_sel & 4 != 0 {
+                // right half: honest parity half of that row
+                let full = fx.sq.eds.row(row).unwrap();
+                raw.shares_half = full[(w / 2) as usize..].iter().map(|s| RawShare { data: s.to_vec() }).collect();
+                raw.half_side = 1;
+                if let Structured::RowHalfLen { n, .. } = &r.structured {
+                    raw.shares_half.truncate(*n as usize);
+                }
+            }
+            Prepared::Row(RowId::new(beyond(row), HEIGHT).unwrap(), raw.encode_to_vec())
+        }
+        Target::RowNamespaceData | Target::ShrexNamespaceData => {
+            let ns = fx.namespaces[pick(r.seed_sel, fx.namespaces.len())];
+            let rows = fx.sq.eds.get_namespace_data(ns, &fx.sq.dah, HEIGHT).unwrap_or_default();
+            let (id, data) = if rows.is_empty() {
+                (RowNamespaceDataId::new(ns, beyond(row), HEIGHT).unwrap(), None)
+            } else {
+                let (id, d) = rows[pick(r.a, rows.len())].clone();
+                (RowNamespaceDataId::new(ns, beyond(id.row_index()), HEIGHT).unwrap(), Some(d))
+            };
+            let mut raw = match data {
+                Some(d) => {
+                    let mut b = BytesMut::new();
+                    d.encode(&mut b);
+                    RawRnd::decode(&b[..]).unwrap()
+                }
+                None => RawRnd { shares: vec![], proof: Some(RawProof { start: 0, end: 0, nodes: vec![], leaf_hash: vec![], is_max_namespace_ignored: true }) },
+            };
+            if let Some(p) = raw.proof.as_mut() {
+                tweak_proof(p, &r.structured);
+            }
+            tweak_shares(&mut raw.shares, &r.structured);
+            Prepared::Rnd(id, raw.encode_to_vec())
+        }
+        Target::Befp => {
+            let row_axis = r.seed_sel & 1 == 0;
+            let idx = if row_axis { row } else { col };
+            let mut shares = Vec::new();
+            for i in 0..w {
+                let (rr, cc) = if row_axis { (idx, i) } else { (i, idx) };
+                let present = (r.seed_sel >> 2).wrapping_add(i) % 3 != 0 || i < w / 2;
+                if !present {
+                    shares.push(RawBefpShare::default());
+                    continue;
+                }
+                // proof along the same axis or the orthogonal one
+                let ortho = (r.seed_sel >> 4) & 1 == 1;
+                let axis = match (row_axis, ortho) {
+                    (true, false) | (false, true) => AxisType::Row,
+                    _ => AxisType::Col,
+                };
+                let s = RawSample::from(Sample::new(rr, cc, axis, &fx.sq.eds).unwrap());
+                let sh = fx.sq.eds.share(rr, cc).unwrap();
+                let mut data = sh.namespace().as_bytes().to_vec();
+                data.extend_from_slice(sh.as_ref());
+                let mut proof = s.proof.unwrap();
+                if i == 0 {
+                    tweak_proof(&mut proof, &r.structured);
+                }
+                shares.push(RawBefpShare { data, proof: Some(proof), proof_axis: axis as i32 });
+            }
+            let mut raw = RawBefp {
+                header_hash: fx.header.hash().as_bytes().to_vec(),
+                height: HEIGHT,
+                shares,
+                index: idx as u32,
+                axis: if row_axis { 0 } else { 1 },
+            };
+            if let Structured::BefpShape { index, shares } = &r.structured {
+                raw.index = *index;
+                let proto = raw.shares.first().cloned().unwrap_or_default();
+                raw.shares.resize(*shares as usize, proto);
+            }
+            if let (Structured::ShareLen { len }, Some(first)) = (&r.structured, raw.shares.first_mut()) {
+                first.data.resize(*len as usize, 0x5a);
+            }
+            Prepared::Befp(raw.encode_to_vec())
+        }
+        Target::Ids => {
+            let mut b = BytesMut::new();
+            match r.seed_sel % 3 {
+                0 => SampleId::new(row, col, HEIGHT).unwrap().encode(&mut b),
+                1 => RowId::new(row, HEIGHT).unwrap().encode(&mut b),
+                _ => RowNamespaceDataId::new(fx.namespaces[0], row, HEIGHT).unwrap().encode(&mut b),
+            }
+            Prepared::Ids(b.to_vec())
+        }
+        _ => Prepared::Ids(vec![]),
+    }
+}
+
+/// Runs a types-level decoder on `bytes`. Returns whether protobuf decoding reached lumina logic.
+pub fn run_types_target(fx: &Fixture, p: &Prepared, bytes: &[u8]) -> bool {
+    match p {
+        Prepared::Header(_) => {
+            let a = ExtendedHeader::decode(bytes);
+            let _ = ExtendedHeader::decode_and_validate(bytes);
+            if let Ok(h) = &a {
+                let _ = fx.header.verify(h);
+                let _ = h.verify(&fx.header);
+            }
+            a.is_ok()
+        }
+        Prepared::Sample(id, _) => {
+            let reached = RawSample::decode(bytes).is_ok();
+            if let Ok(s) = Sample::decode(*id, bytes) {
+                let _ = s.verify(*id, &fx.sq.dah);
+            }
+            reached
+        }
+        Prepared::Row(id, _) => {
+            let reached = RawRow::decode(bytes).is_ok();
+            if let Ok(r) = Row::decode(*id, bytes) {
+                let _ = r.verify(*id, &fx.sq.dah);
+            }
+            reached
+        }
+        Prepared::Rnd(id, _) => {
+            let reached = RawRnd::decode(bytes).is_ok();
+            if let Ok(r) = RowNamespaceData::decode(*id, bytes) {
+                let _ = r.verify(*id, &fx.sq.dah);
+            }
+            reached
+        }
+        Prepared::Befp(_) => {
+            let reached = RawBefp::decode(bytes).is_ok();
+            if let Ok(p) = BadEncodingFraudProof::decode(bytes) {
+                let _ = p.validate(&fx.header);
+            }
+            reached
+        }
+        Prepared::Ids(_) => {
+            let _ = SampleId::decode(bytes);
+            let _ = RowId::decode(bytes);
+            let _ = RowNamespaceDataId::decode(bytes);
+            let _ = celestia_types::namespace_data::NamespaceDataId::decode(bytes);
+            let _ = celestia_types::eds::EdsId::decode(bytes);
+            if let Ok(cid) = cid::CidGeneric::<64>::try_from(bytes) {
+                let _ = SampleId::try_from(&cid);
+                let _ = RowId::try_from(cid);
+                let _ = RowNamespaceDataId::try_from(cid);
+            }
+            true
+        }
+    }
+}
+
+fn seed_bytes(p: &Prepared) -> &[u8] {
+    match p {
+        Prepared::Header(b) | Prepared::Befp(b) | Prepared::Ids(b) => b,
+        Prepared::Sample(_, b) => b,
+        Prepared::Row(_, b) => b,
+        Prepared::Rnd(_, b) => b,
+    }
+}
+
+pub fn run(ctx: &mut Ctx) {
+    ctx.assume("seeds are honest encodings of generated squares/headers; a target 'returns' when it yields Ok or Err; panics are caught by catch_unwind (aborts/stack overflows would end the process: exit 2)");
+    ctx.assume("harness build has debug-assertions and overflow-checks on (covers 'including in debug builds')");
+    let labels: Vec<String> = TYPES_TARGETS.iter().map(|t| format!("target-{t:?}")).collect();
+    ctx.essential(&labels.iter().map(|s| s.as_str()).collect::<Vec<_>>());
+    ctx.essential(&["structured-ProofNodes", "structured-ProofRange", "structured-RowEmptyHalf", "structured-BefpShape"]);
+    let cases = ctx.tier.pick(2500, 120000);
+    ctx.proptest(
+        "mutation-fuzz",
+        "per case: one generated square + signed header; 24 rounds each = (target, honest seed encoding chosen by selectors, optional structured adversarial tweak, 0..3 byte/protobuf-aware mutations) fed to the decoder and then to verification against the header/DAH; oracle: the call returns. Non-trivial = input differs from its honest seed AND passes raw protobuf decoding (reaches lumina logic); distinct by target+bytes",
+        cases,
+        || (structured_square_strategy(0, 2), any::<u64>(), prop::collection::vec(round_strategy(), 24..=24)).prop_map(|(square, hseed, rounds)| Case { square, hseed, rounds }),
+        |case, obs| {
+            let fx = fixture(&case.square, case.hseed);
+            for r in &case.rounds {
+                let t = TYPES_TARGETS[r.target as usize % TYPES_TARGETS.len()];
+                let p = prepare(&fx, t, r);
+                let seed = seed_bytes(&p).to_vec();
+                let mut bytes = apply_all(&seed, &r.muts);
+                if matches!(r.structured, Structured::Empty) {
+                    bytes.clear();
+                }
+                let honest = {
+                    let clean = Round { structured: Structured::None, muts: vec![], ..r.clone() };
+                    seed_bytes(&prepare(&fx, t, &clean)).to_vec()
+                };
+                let differs = bytes != honest;
+                obs.label(&format!("target-{t:?}"));
+                if !matches!(r.structured, Structured::None) {
+                    let name = format!("{:?}", r.structured);
+                    obs.label(&format!("structured-{}", name.split([' ', '{']).next().unwrap_or("")));
+                }
+                match no_panic(|| run_types_target(&fx, &p, &bytes)) {
+                    Ok(reached) => {
+                        obs.eval((differs && reached).then(|| digest_bytes(&bytes) ^ (t as u64)));
+                        if reached {
+                            obs.label("reached-lumina-logic");
+                        }
+                    }
+                    Err(rec) => {
+                        obs.eval(Some(digest_bytes(&bytes)));
+                        let sig = format!("C16:{t:?}:{}", panic_sig(&rec));
+                        obs.fail(&sig, format!("decoder target {t:?} panicked: {rec}; input ({} bytes) hex={}", bytes.len(), hex::encode(&bytes[..bytes.len().min(600)])))?;
+                    }
+                }
+            }
+            Ok(())
+        },
+    );
 }
